@@ -213,20 +213,27 @@ func checkC14(rep *Report, pool *DriverPool, c *WCase, r *Rng, maxK int) {
 		}
 	}
 	rep.Count("setting:" + c.Set.String())
-	for _, k := range ks {
+	for ki, k := range ks {
 		cc := *c
 		cc.FailAt = k
+		cc.Once = ki%3 == 2 // a transient failure: only call k fails
 		extra := []Op{{K: "w", N: 10, Src: 1}, {K: "f"}, {K: "c"}, {K: "w", N: 0, Src: 1}, {K: "c"}, {K: "f"}}
 		// rotate the extra ops so that each kind is the first call after the failure
 		rot := r.Intn(len(extra))
 		cc.Ops = append(append([]Op{}, c.Ops...), append(extra[rot:], extra[:rot]...)...)
+		if ki%2 == 0 {
+			// reuse after the fault: Reset onto a healthy destination, a fresh stream, Close
+			cc.Ops = append(cc.Ops, Op{K: "r"}, Op{K: "w", N: r.Pick([]int{0, 17, 3000}), Src: 1}, Op{K: "c"})
+		}
 		checkC14One(rep, &cc, datas)
 	}
 }
 
 func checkC14One(rep *Report, c *WCase, datas [][]byte) {
-	obs := RunW(c.Set, false, datas, c.Ops, c.FailAt)
-	compareModel(rep, c14pool, c, c.Set, datas, c.Ops, c.FailAt, obs)
+	obs := RunWOpt(c.Set, false, datas, c.Ops, c.FailAt, c.Once)
+	if !c.Once {
+		compareModel(rep, c14pool, c, c.Set, datas, c.Ops, c.FailAt, obs)
+	}
 	rep.Eval(fmt.Sprintf("%s|%s|%d|%d|k%d", c.Set, c.Datas[0].Gen, c.Datas[0].N, len(c.Ops), c.FailAt), c.sample())
 	if obs.Panic != "" {
 		rep.Violate("panic-after-failure", classifyC14(c), obs.Panic, c)
@@ -245,6 +252,10 @@ func checkC14One(rep *Report, c *WCase, datas [][]byte) {
 		return
 	}
 	rep.Count("first-failure-in:" + c.Ops[first].K)
+	if obs.FailedDuringOp >= 0 && obs.FailedDuringOp < len(obs.Res) && obs.Res[obs.FailedDuringOp].Err == "" {
+		rep.Violate("failure-not-reported", "", fmt.Sprintf("the destination failed at call %d during op %d (%s), which returned nil", c.FailAt, obs.FailedDuringOp, c.Ops[obs.FailedDuringOp].K), c)
+		return
+	}
 	if obs.Res[first].Err != errInjected.Error() {
 		rep.Violate("wrong-error", "", fmt.Sprintf("op %d returned %q, expected the destination's error", first, obs.Res[first].Err), c)
 	}
@@ -259,6 +270,23 @@ func checkC14One(rep *Report, c *WCase, datas [][]byte) {
 	}
 	if obs.CallsAfter != 0 {
 		rep.Violate("destination-touched-after-failure", "", fmt.Sprintf("%d destination calls after the failure had been reported", obs.CallsAfter), c)
+	}
+	// after Reset the writer must serve a complete valid stream again (the fault is forgotten)
+	if len(obs.Dests) == 2 && len(c.Ops) >= 3 && c.Ops[len(c.Ops)-3].K == "r" {
+		n := len(obs.Res)
+		if obs.Res[n-1].Err != "" || obs.Res[n-2].Err != "" {
+			rep.Violate("error-survives-reset", "", fmt.Sprintf("after Reset: Write returned %q, Close %q", obs.Res[n-2].Err, obs.Res[n-1].Err), c)
+			return
+		}
+		want := written(datas, c.Ops)[1]
+		var dict []byte
+		if c.Set.Dict != nil {
+			dict = c.Set.Dict.Generate()
+		}
+		got, kind := decodeContainer(c.Set, obs.Bytes(1), dict)
+		if kind != "EOF" || !bytes.Equal(got, want) {
+			rep.Violate("stream-after-reset", "", fmt.Sprintf("after a destination fault and Reset the new stream decodes to %d bytes, %s; expected %d bytes, EOF", len(got), kind, len(want)), c)
+		}
 	}
 }
 
